@@ -38,7 +38,10 @@ CHECKS = {
  "C07": {"ref": "5/C07", "technique": "Lean 4 proof (walk_last, strict-total-order laws of the documented order, walk = spec) + bounded-exhaustive universe correspondence",
          "text": "The documented order `Gt` is proved irreflexive, asymmetric, transitive and trichotomous on coefficient "
                  "functions differing at finitely many monomials; greater_spec shows the overwrite walk started from storage "
-                 "row 0 decides exactly that order; cmpWalk_eq_walk/walk_order_sorted tie the executable model to it. A "
+                 "row 0 decides exactly that order; cmpWalk_eq_walk/walk_order_sorted tie the executable model to it. On arrays: "
+                 "equal_decides_equality, array_trichotomy (exactly one of >, ==, < at every position), array_ge_is_not_lt, "
+                 "array_greater_is_documented_order (read off the coefficients of the denoted elements), where_selects, "
+                 "maximum_is_greater_operand, minimum_is_lesser_operand. A "
                  "universe of 60 (150) small polynomials is compared as arrays under all four sort settings (matrices "
                  "equal the model's; laws re-checked on them), plus random same-degree-heavy pairs and maximum/minimum.",
          "note": BASE_NOTE + " The identification of the position in glexsort order with a LinearOrder on monomials is by the sortedness theorem of C18; coefficients are compared as rationals."},
@@ -73,7 +76,8 @@ CHECKS = {
  "C04": {"ref": "5/C04", "technique": "Lean 4 refinement proof of the three aligners + representation-level correspondence",
          "text": "alignIndet_den/_names/_WF, commonNamesAll_spec (union, sorted by index), alignExpo_den/_rows/_idem and "
                  "bcast_denAt (every index map) prove that alignment keeps the denotation and makes names/rows/shape "
-                 "common; tuples of 1-4 polynomial-likes are aligned by the implementation and by the Lean aligners and "
+                 "common; alignAll_common does the same for any number of operands at once (what concatenate/stack/gradient "
+                 "use); tuples of 1-4 polynomial-likes are aligned by the implementation and by the Lean aligners and "
                  "compared row by row (0 drift), with idempotence and argument snapshots.",
          "note": BASE_NOTE},
  "C06": {"ref": "5/C06", "technique": "Lean 4 refinement proof (derivative rows = MvPolynomial.pderiv, incl. uint32 wrap) + model correspondence over option settings",
@@ -107,17 +111,21 @@ CHECKS = {
                  "weight matrix gives an additive map (linearCol_add) - covering sum, cumsum, diff, ediff1d, mean for every "
                  "axis/keepdims/n; product_den for prod/inner/outer/matmul; det_spec: the standard-minor Laplace expansion "
                  "equals Mathlib's Matrix.det for every size (the shipped cyclic-minor recursion does not: det_old_wrong); "
-                 "det_array_is_det: the executable determinant on (stacks of) polynomial matrices denotes Matrix.det per position. "
+                 "det_array_is_det: the executable determinant on (stacks of) polynomial matrices denotes Matrix.det per position; "
+                 "linear_is_weighted_sum / bilinear_is_sum_of_products / prod_is_product: the executable reductions always "
+                 "succeed on well-formed arrays and element i is the weighted sum / sum of products / product of the listed elements. "
                  "Weights come from numpy on unit vectors, product groups from numpy on index arrays.",
          "note": BASE_NOTE + " Known findings D21 (matmul with 1-d operands) and D22 (prod over an axis tuple) are pinned by the package's docstrings/tests and reported as KNOWN-FINDING."},
  "C11": {"ref": "5/C11", "technique": "Lean 4 pattern theorems + decide over the regenerated registries (every registered function classified) + correspondence against numpy on constants",
          "text": "registry_classified (decide over the registries regenerated from /repo): every registered function has a "
                  "dispatch pattern; columnwise_const / den_constRows / tonumpy_reads_constant_row prove the column-wise "
                  "pattern on constants (f 0 = 0 keeps retained zero columns zero; the value is read from the all-zero "
-                 "exponent row). The remaining patterns reuse C07 (ordering), C09 (gather), C10 (linear/product). The run "
+                 "exponent row). constant_iff (constant with value c <=> denotes C c) turns every denotation theorem into a "
+                 "statement on values: const_arith, const_gather, const_linear, const_prod, const_bilinear, const_compare - on "
+                 "constants the executable operations ARE numpy's operations on the underlying values, whatever the options. The run "
                  "calls every registered function on constant polynomials next to numpy on the raw arrays over axis / "
                  "keepdims grids, and the numeric division functions with non-constant divisors (FeatureNotSupported).",
-         "note": BASE_NOTE + " Pattern-level: theorems cover the patterns, the per-function assignment is tied by the run. Known findings D9b, D21, D22 are pinned by the package's own tests/docstrings."},
+         "note": BASE_NOTE + " Pattern-level: theorems cover the patterns, the per-function assignment is tied by the run. Known findings D9b, D21, D22, D29 are pinned by the package's own tests/docstrings."},
  "C05": {"ref": "5/C05", "technique": "Lean 4 proof of total correctness of the long division (identity as step invariant + termination by a well-founded monomial order) + correspondence with an observed loop",
          "text": "step_identity / steps_identity: dividend = q*divisor + r is preserved by every reduction step in any number "
                  "of indeterminates, so it holds whenever the loop stops; stops_when_irreducible / step_none_iff: it stops only "
